@@ -78,24 +78,18 @@ BASIC = {"bool": "b0", "int": "b1", "int8": "b2", "int32": "b4", "int64": "b5", 
 PROTO = ["toString", "valueOf", "constructor", "hasOwnProperty"]
 
 # what a probe may be flagged with in each mode (anything else is dropped from the script before it is run)
+# The classes protoname / namedptr / seenstr / dupstring (memo) were repaired in round 2: their generators stay (regression
+# tests), but their probes must now agree with the specification like clean ones.
 ALLOWED = {
-    "clean": set(), "amb": {"amb"}, "ptrshadow": {"ptrshadow"}, "fieldhide": {"fieldhide"}, "protoname": {"protoname"},
-    "pkgname": {"pkgname"}, "namedptr": {"namedptr"}, "seenstr": {"seenstr", "dupstring"}, "dupstring": {"dupstring"},
+    "clean": set(), "amb": {"amb"}, "ptrshadow": {"ptrshadow"}, "fieldhide": {"fieldhide"}, "protoname": set(),
+    "pkgname": {"pkgname"}, "namedptr": set(), "seenstr": set(), "dupstring": set(),
 }
 METHODSET_SIG = {
     "amb": "C09 methodset ambiguous-selector-same-depth",
     "ptrshadow": "C09 methodset pointer-receiver-method-does-not-shadow",
     "fieldhide": "C09 methodset field-does-not-hide-method",
-    "protoname": "C09 methodset method-named-like-Object.prototype-property",
     "pkgname": "C09 methodset unexported-names-of-two-packages-collide",
-    "namedptr": "C09 methodset defined-pointer-type-gets-pointee-methods",
-    "seenstr": "C09 methodset seen-keyed-by-type-string",
 }
-SIG_MEMO = "C09 assert memo-keyed-by-type-string"
-SIG_EMB = "C09 canon struct-key-omits-embedded-flag"
-SIG_TAG = "C09 canon struct-key-separator-in-tag"
-SIG_PKG = "C09 canon struct-key-omits-pkgpath"
-SIG_CMP = "C09 ifaceeq comparable-flag-computed-before-field-type-init"
 
 
 def gen_universe(rng, mode):
@@ -253,10 +247,9 @@ def gen_universe(rng, mode):
     dyn += unnamed
     for t in dyn:
         F.op("s:" + t)
-    if mode != "dupstring":
-        for t in dyn:
-            F.op("q:" + t)
-    if mode != "seenstr":
+    for t in dyn:
+        F.op("q:" + t)
+    if True:
         pairs = [(t, i) for t in dyn for i in ifaces] + [("n", ifaces[0])] + [(t, rng.choice(dyn)) for t in dyn[:3]]
         for rep in range(2):
             rng.shuffle(pairs)
@@ -292,7 +285,7 @@ def rand_ctor(rng, F, pool):
     fs = []
     names = rng.sample(["a", "b", "X", "Y"], rng.randrange(0, 3))
     for nm in names:
-        fs.append((nm, False, nm[0].isupper(), t(), rng.choice(["", "", "x", "y:1", "a b"])))
+        fs.append((nm, False, nm[0].isupper(), t(), rng.choice(["", "", "x", "y:1", "a b", "1:x", "2:ab0e", "0:", "x$b,1,", "1:a1eX0:"])))
     pp = "p" if any(not f[2] for f in fs) else ""
     return "T:%s:%s" % (hx(pp), Fam.fields_str(fs))
 
@@ -599,16 +592,9 @@ def run_families(chk, fams, tie):
         o = f.ops[i]
         flags = set() if dg in ("clean", "ok", "bad-op") else set(dg.split("+"))
         if o[0] in "qax":
-            if o[0] in "ax" and "dupstring" in flags and f.mode == "dupstring":
-                return SIG_MEMO
-            for cl in ("amb", "ptrshadow", "fieldhide", "protoname", "pkgname", "namedptr", "seenstr"):
+            for cl in ("amb", "ptrshadow", "fieldhide", "pkgname"):
                 if f.mode == cl and cl in flags:
                     return METHODSET_SIG[cl]
-            return None
-        if o[0] == "T" and f.mode.startswith("canon-"):
-            return {"canon-embedded": SIG_EMB, "canon-tag": SIG_TAG, "canon-pkgpath": SIG_PKG}[f.mode]
-        if o[0] in "kE" and f.mode == "eqstale" and stale:
-            return SIG_CMP
         return None
 
     def kind(op, ans):
@@ -639,10 +625,10 @@ def run_families(chk, fams, tie):
 # generated Go programs (tie b)
 # ----------------------------------------------------------------------------------------------
 
-PROG_SIG = dict(METHODSET_SIG)
+PROG_SIG = {k: v for k, v in METHODSET_SIG.items() if k != "pkgname"}
 SIG_CTOR = "C09 dispatch method-named-constructor-clobbers-dynamic-type"
 SIG_RECV = "C09 dispatch struct-value-receiver-shared-through-interface-or-method-value"
-PROG_SIG.update({"memo": SIG_MEMO, "canon-embedded": SIG_EMB, "canon-tag": SIG_TAG, "cmp": SIG_CMP, "recvcopy": SIG_RECV})
+PROG_SIG.update({"recvcopy": SIG_RECV, "ctorname": SIG_CTOR})
 
 
 def gen_program(rng, mode):
@@ -653,8 +639,10 @@ def gen_program(rng, mode):
     a type that contains it is 'tainted'."""
     n = rng.randrange(3, 7)
     mpool = ["M", "N", "P", "m", "q"]
-    if mode == "protoname":
-        mpool = ["M", "N"] + rng.sample(PROTO, 2)
+    if mode == "protoname":       # repaired: such methods are ordinary methods now (`constructor` is a separate finding)
+        mpool = ["M", "N"] + rng.sample([x for x in PROTO if x != "constructor"], 2)
+    if mode == "ctorname":
+        mpool = ["M", "N", "constructor"]
     types = []      # dict: name, kind(struct/int), emb [(j, byptr)], vm [names], pm [names], sel set, taint
     for i in range(n):
         t = {"name": "T%d" % i, "i": i, "emb": [], "vm": [], "pm": [], "taint": False}
@@ -741,13 +729,13 @@ def gen_program(rng, mode):
         t = {"name": "T%d" % n, "i": n, "kind": "struct", "emb": [(e["i"], False)], "vm": [], "pm": [],
              "extra_fields": ["%s int" % rng.choice(ups)], "sel": set(e["sel"]), "taint": True}
         types.append(t)
-    elif mode == "protoname":
+    elif mode == "ctorname":
         for t in types:
-            if set(t["vm"] + t["pm"]) & set(PROTO):
+            if "constructor" in t["vm"] + t["pm"]:
                 t["taint"] = True
         if not any(t["taint"] for t in types):
-            types.append({"name": "T%d" % n, "i": n, "kind": "struct", "emb": [], "vm": ["toString"], "pm": [],
-                          "sel": {"toString", "c%d" % n}, "taint": True})
+            types.append({"name": "T%d" % n, "i": n, "kind": "struct", "emb": [], "vm": ["constructor"], "pm": [],
+                          "sel": {"constructor", "c%d" % n}, "taint": True})
     # taint propagates to every type that embeds a tainted one
     for t in types:
         if any(types[j]["taint"] for (j, _) in t["emb"]):
@@ -993,7 +981,8 @@ def run_programs(chk, tier):
     q = tier != "thorough"
     counts = {"clean": 24 if q else 300, "amb": 4 if q else 50, "ptrshadow": 3 if q else 30, "fieldhide": 3 if q else 30,
               "protoname": 2 if q else 25, "namedptr": 2 if q else 25, "memo": 4 if q else 50, "seenstr": 2 if q else 25,
-              "canon-embedded": 1 if q else 8, "canon-tag": 1 if q else 8, "cmp": 2 if q else 15, "recvcopy": 2 if q else 25}
+              "canon-embedded": 1 if q else 8, "canon-tag": 1 if q else 8, "cmp": 2 if q else 15, "recvcopy": 2 if q else 25,
+              "ctorname": 2 if q else 15}
     jobs, meta = [], []
     for mode, k in counts.items():
         for _ in range(k):
@@ -1025,7 +1014,7 @@ def run_programs(chk, tier):
             if differing == []:
                 continue
             sig = None
-            ctor_method = mode == "protoname" and ") constructor() int {" in srcs
+            ctor_method = mode == "ctorname" and ") constructor() int {" in srcs
             if differing is None and mode in PROG_SIG and js[1].startswith("jserror:TypeError") and (
                     "is not a function" in js[1] or ctor_method):
                 # an assertion that wrongly succeeded: the call of the missing method crashes. The line being printed must
